@@ -13,8 +13,8 @@ static CC_Stack *S[NSLOT];
 static CC_StackIter it;      static int it_slot = -1;
 static CC_StackZipIter zit;  static int z1 = -1, z2 = -1;
 
-static int sess_default;   /* the session object was built by cc_stack_new (C library allocator triple) */
-static void shim_reset(void) { for (int i = 0; i < NSLOT; i++) S[i] = NULL; it_slot = z1 = z2 = -1; sess_default = 0; }
+static int slot_default[NSLOT];   /* the object in the slot uses the C library allocator triple (built by cc_stack_new, or derived from such a stack) */
+static void shim_reset(void) { for (int i = 0; i < NSLOT; i++) { S[i] = NULL; slot_default[i] = 0; } it_slot = z1 = z2 = -1; }
 
 static bool pred_even(const void *e) { cb_record((void *)e); return VAL(e) % 2 == 0; }
 static void fn_visit(void *e) { cb_record(e); }
@@ -52,7 +52,7 @@ static void phys(void) {
         if (a->size > a->capacity) o(" WALK=size-gt-capacity");
         if (block_size(a) != sizeof(CC_Array)) o(" WALK=array-struct-block");
         if (block_size(S[k]) != sizeof(CC_Stack)) o(" WALK=stack-struct-block");
-        if (sess_default ? (a->mem_alloc != malloc || a->mem_calloc != calloc || a->mem_free != free ||
+        if (slot_default[k] ? (a->mem_alloc != malloc || a->mem_calloc != calloc || a->mem_free != free ||
                             S[k]->mem_alloc != malloc || S[k]->mem_calloc != calloc || S[k]->mem_free != free)
                          : (a->mem_alloc != conf_malloc || a->mem_calloc != conf_calloc || a->mem_free != conf_free ||
                             S[k]->mem_alloc != conf_malloc || S[k]->mem_calloc != conf_calloc || S[k]->mem_free != conf_free))
@@ -85,7 +85,7 @@ static void do_op(Cmd *c) {
         enum cc_stat st;
         shim_reset();
         if (is_op(c, "new")) st = make(c, &S[0]);
-        else { st = cc_stack_new(&S[0]); sess_default = 1; }
+        else { st = cc_stack_new(&S[0]); slot_default[0] = 1; }
         if (st != CC_OK) S[0] = NULL;
         o_stat(st);
         obs_all(); o_sep(); phys(); return;
@@ -123,7 +123,7 @@ static void do_op(Cmd *c) {
         else o("st=- badop");
     } else if (is_op(c, "mk_new")) {
         if (S[to]) o("st=- slotbusy");
-        else { CC_Stack *r = NULL; enum cc_stat st = make(c, &r); if (st == CC_OK) S[to] = r; o_stat(st); }
+        else { CC_Stack *r = NULL; enum cc_stat st = make(c, &r); if (st == CC_OK) { S[to] = r; slot_default[to] = 0; } o_stat(st); }
     } else if (!s) { o("st=- noobj");
     } else if (is_op(c, "drop")) { cc_stack_destroy(s); drop_slot(k); o("st=-");
     } else if (is_op(c, "push")) { o_stat(cc_stack_push(s, PTR(pos_u64(c, 0))));
@@ -136,7 +136,7 @@ static void do_op(Cmd *c) {
         if (S[to] || to == k) o("st=- slotbusy");
         else {
             CC_Stack *r = NULL; enum cc_stat st = cc_stack_filter(s, pred_even, &r);
-            if (st == CC_OK) S[to] = r;
+            if (st == CC_OK) { S[to] = r; slot_default[to] = slot_default[k]; }
             o_stat(st); o(" "); o_cb();
         }
     } else o("st=- badop");
